@@ -47,8 +47,11 @@ class PropertyRun:
 
     def shrink(self, line):
         cfg, toks = script_split(line)
-        small = V.ddmin(toks, lambda t: self.fails_monitor(script_join(cfg, t)),
-                        budget=self.spec.get("shrink_budget", 60))
+        budget = self.spec.get("shrink_budget", 60)
+        if len(toks) > 400:
+            # volume scripts: one evaluation costs about a minute, and their point is the count
+            budget = min(budget, 4)
+        small = V.ddmin(toks, lambda t: self.fails_monitor(script_join(cfg, t)), budget=budget)
         return script_join(cfg, small)
 
     # ---- script sources -------------------------------------------------------------------
@@ -81,12 +84,15 @@ class PropertyRun:
                         + self.spec.get("gen_args", []))
         return [l for l in out.split("\n") if l.strip()]
 
-    def sweep_lines(self):
-        lines = []
+    def sweep_families(self):
+        fams = []
         for extra in self.spec.get("sweeps", []):
             out = V.harness([self.spec["harness"], "sweep"] + extra, timeout=1500)
-            lines += [l for l in out.split("\n") if l.strip()]
-        return lines
+            fams.append([l for l in out.split("\n") if l.strip()])
+        return fams
+
+    def sweep_lines(self):
+        return [l for f in self.sweep_families() for l in f]
 
 
 def proof_phase(spec, tier):
@@ -163,17 +169,26 @@ def script_phase(spec, part, tier, seed, proof_break):
 
     searched = 0
     if (mism or proof_break) and not monf:
-        extra = []
+        # search for a concrete failing input, cheapest stage first; stop at the first stage that finds one:
+        # small sweep families (e.g. the volume family), ten more generator seeds, then the large sweeps
+        fams = R.sweep_families() if tier != "thorough" else []
+        fams.sort(key=len)
+        stages = [f for f in fams if len(f) <= 2000]
+        gen_stage = []
         for k in range(1, 11):
-            extra += R.gen_lines(seed * 1000 + k, tcfg["count"])
-        extra += R.sweep_lines() if tier != "thorough" else []
-        ecases, ecodes = R.run_scripts(extra, "search")
-        searched = len(extra)
-        for i, c in enumerate(ecodes):
-            if c & 2:
-                lines.append(extra[i])
-                cases.append(ecases[i])
-                codes.append(c)
+            gen_stage += R.gen_lines(seed * 1000 + k, tcfg["count"])
+        stages.append(gen_stage)
+        stages += [f for f in fams if len(f) > 2000]
+        for si, extra in enumerate(stages):
+            if not extra:
+                continue
+            ecases, ecodes = R.run_scripts(extra, f"search{si}")
+            searched += len(extra)
+            hit = next((i for i, c in enumerate(ecodes) if c & 2), None)
+            if hit is not None:
+                lines.append(extra[hit])
+                cases.append(ecases[hit])
+                codes.append(ecodes[hit])
                 monf.append(len(lines) - 1)
                 break
 
